@@ -2459,3 +2459,28 @@ def jstr (s : String) : JVal := .str ("\"" ++ s ++ "\"") s
 def jmem (k : String) (v : JVal) : String × String × JVal := ("\"" ++ k ++ "\"", k, v)
 
 end Geo
+
+namespace Geo
+
+theorem polyCase_shape {o : POpts} {k : Keys} {x : Obj} (h : polyCase o k = .ok x) :
+    ∃ c rings ex, k.coordinates = some c ∧ parsePolyCoords c = .ok (rings, ex) ∧
+      rings.all ringOK = true ∧ x = polyObj o rings (withMembers ex k) := by
+  unfold polyCase at h
+  split at h
+  · cases h
+  · rename_i c hc
+    split at h
+    · cases h
+    · rename_i rings ex hp
+      split at h
+      · cases h
+      · rename_i hok
+        simp only at h
+        split at h
+        · cases h
+        · cases h
+          refine ⟨c, rings, ex, (reqArray_ok hc).1, hp, ?_, rfl⟩
+          simp only [Bool.or_eq_true, Bool.not_eq_true', not_or, Bool.not_eq_true, Bool.not_eq_false] at hok
+          exact hok.2
+
+end Geo
